@@ -622,8 +622,21 @@ func runC09_11(c *core.Ctx) {
 				rel++
 				be, isRem := ast.Unparen(as.Rhs[k]).(*ast.BinaryExpr)
 				okk := isRem && be.Op == token.REM && flow.FieldOf(f.Info, be.Y) == a.size
+				if okk {
+					// the sum under the modulo moves the cursor forward: every term is added
+					var terms []struct {
+						e    ast.Expr
+						sign int
+					}
+					addTerms(be.X, 1, &terms)
+					for _, t := range terms {
+						if t.sign < 0 {
+							okk = false
+						}
+					}
+				}
 				c.Check(okk, f.Name, "relative cursor assignment #"+itoa(rel)+" wraps modulo size", as.Pos(), "(cursor + k) % rb.size",
-					exprStr(l)+" = "+exprStr(as.Rhs[k])+" advances the cursor without reducing the sum modulo rb.size (a bit mask only works while the capacity is a power of two; the ring grows by a quarter above 4 KiB and to arbitrary sizes on large writes): the cursor lands on a wrong index, Buffered()/Bytes() then describe other bytes than the ones written")
+					exprStr(l)+" = "+exprStr(as.Rhs[k])+" does not advance the cursor by a sum reduced modulo rb.size (a subtraction moves it backwards onto bytes already consumed or not yet written; (a bit mask only works while the capacity is a power of two; the ring grows by a quarter above 4 KiB and to arbitrary sizes on large writes): the cursor lands on a wrong index, Buffered()/Bytes() then describe other bytes than the ones written")
 			}
 			return true
 		})
@@ -712,6 +725,188 @@ func runC09_11(c *core.Ctx) {
 			})
 			c.Check(bad == token.NoPos, f.Name, construct, in.node.Pos(), "followed by a wrap that covers equality on every path",
 				name+" is advanced here and a return is reachable without a wrap that maps "+name+" == rb.size to 0 (only `%`, `== size`, `>= size`, Reset or grow do): the cursor can rest one past the end of the array – ReadByte/WriteByte index out of range, and with the other cursor at 0 a full buffer reads as empty")
+		}
+	}
+}
+
+func init() {
+	register(&core.Rule{ID: "C09.12", Prop: "C09", MinSites: 6,
+		Desc: "a transfer's outcome is reported: after an external Read/Write bound (m, err), every return on the edge where err is established non-nil hands back err, and in ReadFrom/WriteTo the count result is increased by m (or is m) before each return – a failed or partial transfer is neither hidden nor miscounted",
+		Run:  runC09_12})
+}
+
+func runC09_12(c *core.Ctx) {
+	a := ringAnchors(c)
+	if a == nil {
+		return
+	}
+	for _, f := range a.funcs {
+		sig := f.Obj.Type().(*types.Signature)
+		if sig.Results().Len() != 2 {
+			continue
+		}
+		type site struct {
+			as       *ast.AssignStmt
+			cnt, err types.Object
+			kind     string
+		}
+		var sites []site
+		ast.Inspect(f.Decl.Body, func(n ast.Node) bool {
+			as, ok := n.(*ast.AssignStmt)
+			if !ok || len(as.Rhs) != 1 || len(as.Lhs) != 2 {
+				return true
+			}
+			call, ok := ast.Unparen(as.Rhs[0]).(*ast.CallExpr)
+			if !ok || len(call.Args) != 1 {
+				return true
+			}
+			cf := flow.CalleeFunc(f.Info, call)
+			if cf == nil || cf.Pkg() == nil || cf.Pkg().Path() != "io" || (cf.Name() != "Read" && cf.Name() != "Write") {
+				return true
+			}
+			if se, ok := ast.Unparen(call.Args[0]).(*ast.SliceExpr); !ok || flow.FieldOf(f.Info, se.X) != a.buf {
+				if _, isLocal := flow.ObjOf(f.Info, call.Args[0]).(*types.Var); !isLocal {
+					return true
+				}
+			}
+			co, eo := flow.ObjOf(f.Info, as.Lhs[0]), flow.ObjOf(f.Info, as.Lhs[1])
+			if co != nil && eo != nil {
+				sites = append(sites, site{as, co, eo, cf.Name()})
+			}
+			return true
+		})
+		for k, s := range sites {
+			s := s
+			const (
+				sIdle = iota
+				sCalled
+				sFailed
+				sNil
+				sEOF
+			)
+			counted := taintedBy(f.Info, f.Decl.Body, s.cnt)
+			var namedCount, namedErr types.Object
+			if v := sig.Results().At(0); v.Name() != "" {
+				namedCount = v
+			}
+			if v := sig.Results().At(1); v.Name() != "" {
+				namedErr = v
+			}
+			isSite := func(n ast.Node) bool {
+				for _, o := range sites {
+					if ast.Node(o.as) == n {
+						return true
+					}
+				}
+				return false
+			}
+			type bad struct {
+				pos token.Pos
+				msg string
+			}
+			var bads []bad
+			// state: phase (2 bits) | countAdded<<2
+			au := &flow.Auto{Start: sIdle}
+			au.Node = func(b *flow.Block, i int, n ast.Node, st int) int {
+				phase, added := st&7, st>>3
+				if n == ast.Node(s.as) {
+					return sCalled
+				}
+				if isSite(n) {
+					return sIdle // a later transfer: its own site judges it
+				}
+				if phase == sIdle {
+					return st
+				}
+				if as, ok := n.(*ast.AssignStmt); ok {
+					for idx, l := range as.Lhs {
+						lo := flow.ObjOf(f.Info, l)
+						if lo == s.err && n != ast.Node(s.as) {
+							phase = sIdle // the error variable was reassigned: a new story
+						}
+						if lo != nil && (lo == namedCount || counted[lo]) && lo != s.cnt {
+							rhs := as.Rhs[0]
+							if idx < len(as.Rhs) {
+								rhs = as.Rhs[idx]
+							}
+							ast.Inspect(rhs, func(m ast.Node) bool {
+								if id, ok := m.(*ast.Ident); ok && counted[f.Info.Uses[id]] {
+									added = 1
+								}
+								return true
+							})
+						}
+					}
+				}
+				return phase | added<<3
+			}
+			au.Edge = func(e *flow.Edge, st int) int {
+				phase, added := st&7, st>>3
+				if (phase != sCalled) || e.Cond == nil || e.Tag != nil {
+					return st
+				}
+				if x, y, op, ok := flow.Cmp(e.Cond); ok && flow.ObjOf(f.Info, x) == s.err {
+					switch {
+					case flow.IsNil(f.Info, y):
+						if (op == token.NEQ) == e.Sense {
+							phase = sFailed
+						} else {
+							phase = sNil
+						}
+					case exprStr(y) == "io.EOF" && (op == token.EQL) == e.Sense:
+						phase = sEOF
+					}
+				}
+				return phase | added<<3
+			}
+			sol := f.Graph().Run(au)
+			sol.AtExit(func(b *flow.Block, _ uint64) {
+				for _, st := range flow.States(sol.Out(b)) {
+					phase, added := st&7, st>>3
+					if phase == sIdle {
+						continue
+					}
+					r := b.Return
+					// the count
+					countOK := added == 1
+					if len(r.Results) == 2 {
+						ast.Inspect(r.Results[0], func(m ast.Node) bool {
+							if id, ok := m.(*ast.Ident); ok && counted[f.Info.Uses[id]] {
+								countOK = true
+							}
+							return true
+						})
+					}
+					if !countOK && s.kind != "" {
+						bads = append(bads, bad{r.Pos(), "a return after this transfer reports a count that does not include " + s.cnt.Name() + ", the bytes just moved"})
+					}
+					if len(r.Results) == 2 && flow.IsNil(f.Info, r.Results[1]) && phase != sNil && phase != sEOF {
+						bads = append(bads, bad{r.Pos(), "a return after this transfer reports a nil error although " + s.err.Name() + " is not established nil (or io.EOF) on this path: a failed transfer is reported as a success"})
+					}
+					if phase == sFailed {
+						errOK := false
+						if len(r.Results) == 0 {
+							errOK = namedErr != nil && namedErr == s.err
+						} else if len(r.Results) == 2 {
+							ast.Inspect(r.Results[1], func(m ast.Node) bool {
+								if id, ok := m.(*ast.Ident); ok && f.Info.Uses[id] == s.err {
+									errOK = true
+								}
+								return true
+							})
+						}
+						if !errOK {
+							bads = append(bads, bad{r.Pos(), "a return on the failure edge of this transfer does not hand back " + s.err.Name() + ": the caller takes a failed transfer for a complete one"})
+						}
+					}
+				}
+			})
+			construct := s.kind + " #" + itoa(k+1) + " outcome reported"
+			if len(bads) > 0 {
+				c.Violate(f.Name, construct, bads[0].pos, bads[0].msg)
+				continue
+			}
+			c.Ok(f.Name, construct, s.as.Pos(), "count and error reach the caller on every return that follows")
 		}
 	}
 }
